@@ -116,6 +116,9 @@ type Chain struct {
 	// NextSeed is the header AppHash of the block opened by the next BeginBlock.
 	NextSeed    []byte
 	NextSeedSet bool
+	// NextTime is the header time of the block opened by the next BeginBlock (default: +5 s).
+	NextTime    time.Time
+	NextTimeSet bool
 	InBlock bool
 	// Trace hooks, called around lean blocker steps when non-nil.
 	StepHook func(step string, before bool)
@@ -173,7 +176,11 @@ func (c *Chain) BeginBlock() error {
 		return fmt.Errorf("BeginBlock while in block")
 	}
 	c.Height++
-	c.Time = c.Time.Add(5 * time.Second)
+	if c.NextTimeSet {
+		c.Time, c.NextTimeSet = c.NextTime, false
+	} else {
+		c.Time = c.Time.Add(5 * time.Second)
+	}
 	c.Seed, c.SeedSet = c.NextSeed, c.NextSeedSet
 	c.NextSeed, c.NextSeedSet = nil, false
 	ctx := c.Ctx()
